@@ -91,3 +91,72 @@ Proof.
   split; [|vm_compute; reflexivity].
   intros h p Hp. assert (p = 3 \/ p = 4 \/ p = 5 \/ p = 6)%nat as [-> | [-> | [-> | ->]]] by lia; reflexivity.
 Qed.
+
+(* ---- tree level (round 3): the whole LALR pipeline ------------------------------------------------
+   parse_slice = lexer (lex_slice) -> LALR driver over an abstract table (LR/Driver.feed) -> callbacks
+   PropagatePositions o (ExpandSingleChild, the ChildFilter variants) (Shape/Chain.run_callback) evaluated on the
+   accepted derivation.  Parsing TextSlice(T,a,b) gives the result of parsing T[a:b] re-based: every token
+   offset and every meta start_pos/end_pos (own and container) shifted by a, every line/column looked up
+   in T; an UnexpectedCharacters / UnexpectedToken error at the shifted position; an UnexpectedToken at
+   $END borrows the (shifted) last token - on an empty stream it stays at 0/1/1 in both runs. *)
+From LV Require Import Cfg.Grammar Shape.Chain Pos.MetaSpan Pos.TreeShift Pos.TreeShift_proofs.
+From LV Require LR.Driver.
+
+Theorem C15_parse_window_shift {A term : Type} (eqb : A -> A -> bool) (nl : A)
+  (scan : list term -> list A -> Z -> Z -> option (nat * term)) (ignore newline_types : term -> bool)
+  (rr : rule -> rrec) (mp : bool) (tnum : term -> nat) (end_term : term) (P : Driver.ptable)
+  (T : list A) (a b : nat) fuel :
+  (a <= b)%nat -> (b <= List.length T)%nat ->
+  (forall h (p n : nat) ty, scan h T (Z.of_nat p) (Z.of_nat b) = Some (n, ty) -> (p + n <= b)%nat) ->
+  (forall h (p : nat), (a <= p < b)%nat ->
+     scan h T (Z.of_nat p) (Z.of_nat b) = scan h (sub T a b) (Z.of_nat (p - a)) (Z.of_nat (b - a))) ->
+  let ln := lnT eqb nl T in
+  let col := colT eqb nl T in
+  let za := Z.of_nat a in
+  parse_slice rr mp tnum end_term P eqb nl scan ignore newline_types fuel T za (Z.of_nat b) =
+  map_presult (shift_tok za ln col) (shift_trip za ln col) (fun p => (p + za, ln (p + za), col (p + za)))%Z
+    (parse_slice rr mp tnum end_term P eqb nl scan ignore newline_types fuel (sub T a b) 0%Z (Z.of_nat (b - a))).
+Proof. exact (parse_window_shift eqb nl scan ignore newline_types rr mp tnum end_term P T a b fuel). Qed.
+Print Assumptions C15_parse_window_shift.
+
+(* the two lemmas the lifting rests on: the driver's control ignores token positions, and
+   PropagatePositions commutes with any map of position triples *)
+Theorem C15_driver_ignores_positions (tok tok' : Type) (ttype : tok -> nat) (ttype' : tok' -> nat) (f : tok -> tok')
+  (P : Driver.ptable) fuel c k k' e :
+  ttype' k' = ttype k -> (e = false -> k' = f k) ->
+  Driver.feed tok' ttype' P fuel (map_config tok tok' f c) k' e
+  = map_outcome tok tok' f (Driver.feed tok ttype P fuel c k e).
+Proof. exact (feed_nat tok tok' ttype ttype' f P fuel c k k' e). Qed.
+Print Assumptions C15_driver_ignores_positions.
+
+Theorem C15_propagate_commutes (phi : trip -> trip) m ch :
+  propagate (map_meta phi m) (map (map_shaped phi) ch) = map_meta phi (propagate m ch).
+Proof. exact (propagate_nat phi m ch). Qed.
+Print Assumptions C15_propagate_commutes.
+
+(* Non-vacuity: grammar  start: A B  (table: 0 -A-> 1 -B-> 2, reduce on $END, goto start = end state 3),
+   buffer "x\nab", window [2,4): the tree of the window equals the re-based tree of "ab", and its meta is
+   offsets 2..4, line 2, columns 1..3. *)
+Definition ex3_rule := mkRule 0%nat [T 0%nat; T 1%nat].
+Definition ex3_rows : Driver.rows :=
+  [(0, [(T 0, Driver.Shift 1); (NT 0, Driver.Shift 3)]); (1, [(T 1, Driver.Shift 2)]);
+   (2, [(T 9, Driver.Reduce ex3_rule)])]%nat.
+Definition ex3_P := Driver.ptable_of_rows ex3_rows 0%nat 3%nat.
+Definition ex3_rr (_ : rule) : rrec :=
+  mkR "start" [mkSym true "A" false; mkSym true "B" false] None None false false [].
+Definition ex3_tnum (t : string) : nat := (if String.eqb t "A" then 0 else if String.eqb t "B" then 1 else 9)%nat.
+Definition ex3_scan (h : list string) (T : list ascii) (p e : Z) : option (nat * string) :=
+  match nth_error T (Z.to_nat p) with
+  | Some c => if Ascii.eqb c "a"%char then Some (1%nat, "A") else if Ascii.eqb c "b"%char then Some (1%nat, "B") else None
+  | None => None
+  end.
+Definition ex3_T := txt "x\010ab".
+Example C15_parse_example :
+  parse_slice ex3_rr true ex3_tnum "$END" ex3_P Ascii.eqb anl ex3_scan (fun _ => false) (fun _ => false) 10%nat ex3_T 2 4
+  = RTree (VTree "start" (mkMeta (Some (2, 2, 1)) (Some (4, 2, 3)) (Some (2, 2, 1)) (Some (4, 2, 3)))%Z
+             [VTok (mkTok "A" [ "a"%char ] 2 2 1 2 2 3); VTok (mkTok "B" [ "b"%char ] 3 2 2 2 3 4)])%Z
+  /\ parse_slice ex3_rr true ex3_tnum "$END" ex3_P Ascii.eqb anl ex3_scan (fun _ => false) (fun _ => false) 10%nat
+       (sub ex3_T 2%nat 4%nat) 0 2
+     = RTree (VTree "start" (mkMeta (Some (0, 1, 1)) (Some (2, 1, 3)) (Some (0, 1, 1)) (Some (2, 1, 3)))%Z
+             [VTok (mkTok "A" [ "a"%char ] 0 1 1 1 2 1); VTok (mkTok "B" [ "b"%char ] 1 1 2 1 3 2)])%Z.
+Proof. vm_compute. split; reflexivity. Qed.
